@@ -21,6 +21,7 @@ def run(project, rep):
     rep.run(T.t_r4, project, rep)
     rep.run(T.t_r5, project, rep)
     rep.run(T.t_r6, project, rep)
+    rep.run(T.t_r6b_no_context_arithmetic, project, rep)
     rep.run(T.t_r7, project, rep)
     from .. import rules_dates as Z
     from .. import rules_wire as L
